@@ -252,6 +252,7 @@ func (w *Worker) runItem(it workItem, q *queue) {
 	w.st = jobStats{}
 	w.newWork = nil
 	w.obs = nil
+	w.frozen = nil
 	w.reached = nil
 	w.concreteVec = nil
 	w.cvPos = 0
